@@ -40,6 +40,7 @@ _RULES = {
     "DOC-IN-RANGE": rules_units.rule_doc_in_range,
     "CHAR-ESCAPES": rules_units.rule_char_escapes,
     "INDEX-ELEM": rules_units.rule_index_elem,
+    "ONE-PER-ITEM": rules_units.rule_one_per_item,
 }
 
 _cache = {}
